@@ -82,6 +82,7 @@ func main() {
 		fs.IntVar(&o.From, "from", 0, "")
 		fs.IntVar(&o.To, "to", 0, "")
 		fs.BoolVar(&o.Careful, "careful", false, "")
+		fs.StringVar(&o.CarefulFile, "careful-file", "/tmp/goatsim-careful-plan.json", "")
 		fs.BoolVar(&o.Hashes, "hashes", false, "")
 		fs.StringVar(&o.WorkDir, "work", "/tmp", "")
 		fs.StringVar(&o.ReplayDir, "replays", "/verif/replays", "")
